@@ -75,7 +75,8 @@ def run(ctx):
         ctx.ob("E6.combine", fk, ok, "%s receives a 1:1 image of the whole `shares` list: %s" % (sink, shown), where=where(f))
         allow = {}
         if fk == "Signature<C>::from_shares":
-            allow[(fk, "skip")] = "skip(1): elements 1.. are compared with element 0 (scheme consistency)"
+            allow[(fk, "skip")] = "skip(1): elements 1.. are compared with element 0 (scheme consistency; validated by E4.scheme)"
+            allow[(fk, "windows")] = "windows(2): adjacent pairs compared (scheme consistency; validated by E4.scheme)"
         F.check_no_dropping_adapters(ctx, "E7.adapters", P, [fk], allow=allow)
     # core combiners forward their slice unmodified
     for fk in ("BlsSignatureCore::core_combine_signature_shares", "BlsSignatureCore::core_combine_public_key_shares"):
@@ -94,6 +95,7 @@ def run(ctx):
         oks = R.ok_blocks(f)
         good = True
         detail = ""
+        idiom = None
         for b in oks:
             lits = G.path_literals(ev, b, P)
             hit = False
@@ -102,6 +104,17 @@ def run(ctx):
                     src = atom[2].a[1][0]
                     clo = B.peel(atom[2].a[1][1])
                     cov = R.covers_all(src, "shares")
+                    sp = B.peel(src)
+                    if sp.op == "call" and B.cname(sp) == "slice::<impl [T]>::windows" and B._const_int(sp.a[1][1]) == 2 and R.covers_all(sp.a[1][0], "shares") == "all" and clo.op == "agg" and clo.a[0][0] == "closure":
+                        g = P.fns.get(clo.a[0][1])
+                        if g is not None:
+                            r = strip_sites(evaluate(g).ret)
+                            if r.op == "call" and B.cname(r).endswith("::same_scheme"):
+                                idx = sorted(B._const_int(z.a[1]) for z in [B.peel(q) for q in r.a[1]] if z.op == "index" and B.peel(z.a[0]).op == "param")
+                                if idx == [0, 1]:
+                                    hit = True
+                                    idiom = "windows"
+                                    detail = "all(windows(shares, 2), |w| same_scheme(w[0], w[1]))"
                     if cov in ("all", "tail1") and clo.op == "agg" and clo.a[0][0] == "closure":
                         g = P.fns.get(clo.a[0][1])
                         if g is not None:
